@@ -7,6 +7,7 @@ CONSTANTS
   Parents <- TrkParents
   CtxOf <- TrkCtxOf
   Removable <- TrkRemovable
+  OtherMds <- McOtherMds
   BeginKinds = {"descriptor", "metric"}
   KeepH = {}
   TrackH = "dB"
